@@ -1,5 +1,5 @@
 # C16 -- WebSocket/HTTP codecs: segmentation-independent and rule-enforcing (DESIGN 5/C16)
-import base64, hashlib, random, re
+import base64, hashlib, os, random, re
 from concurrent.futures import ThreadPoolExecutor
 from vlib import *
 
@@ -425,6 +425,82 @@ def sub_multiset(a, b):
     return True
 
 
+def http_body_iov(rep, impl, rng, tier, replay=None):
+    """reads with several io-vector elements (nng_http_read_all / nng_http_read): c bytes of the body are in the
+    connection's read buffer when the read is posted, the rest arrives afterwards.  Oracle (the property: the same
+    body however the stream is split): the elements receive consecutive bytes of the body.  Correspondence:
+    Codec/HttpIov.v http_read_full, evaluated by coqc (vm_compute) on the same cases, gives the same buffers."""
+    import subprocess
+    head = b"HTTP/1.1 200 OK\r\nContent-Length: %d\r\n\r\n"
+    if replay:
+        cs = [l.split()[1:] for l in open(replay) if l.startswith("hbody ")]
+        cs = [(unhx(c[1]), int(c[2]), [int(x) for x in c[3].split(",")], c[4]) for c in cs]
+    else:
+        cs = [(b"ABCDEFGHIJKL", 6, [4, 4, 4], "f"), (b"ABCDEFGHIJKL", 4, [4, 4, 4], "f"), (b"ABCDEFGHIJKL", 5, [2, 3, 7], "f")]
+        for i in range(60 if tier == "quick" else 1500):
+            k = rng.choice([1, 2, 3, 3, 4, 5, 8])
+            lens = [rng.choice([1, 2, 3, 4, 7, 16, 100]) for _ in range(k)]
+            body = rbytes(rng, sum(lens))
+            # aim at the boundaries between elements, and just beside them
+            edges = [sum(lens[:j]) for j in range(k + 1)]
+            c = rng.choice(edges + [max(0, e - 1) for e in edges] + [min(len(body), e + 1) for e in edges] + [rng.randrange(len(body) + 1)])
+            cs.append((body, c, lens, "f" if rng.random() < 0.8 else "r"))
+    lines = ["hbody %s %s %d %s %s" % (hx(head % len(b)), hx(b), c, ",".join(map(str, lens)), m) for b, c, lens, m in cs]
+    rc, out, errtxt = run_prog(impl, "\n".join(lines) + "\n", timeout=600)
+    res = [l for l in out if l.startswith("hbody ")]
+    if rc != 0 or len(res) != len(lines):
+        p = rep.replay_file("hbody_crash.case", "# rc=%s %s\n" % (rc, (errtxt or "")[-1500:].replace("\n", "\n# ")) + "\n".join(lines) + "\n")
+        rep.violation(p, "HTTP multi-element reads: driver crashed / sanitizer report / missing answers (rc=%s): %s" % (rc, san_summary(errtxt or "")))
+        return
+    # the model's answers (repaired variant as long as the source carries the repair)
+    flags = open(os.path.join(VERIF, "coq", "Gen", "Consts.v")).read()
+    fixed = "Definition C16_RDBUF_IOV_REFETCH : bool := true" in flags
+    full = [(i, c) for i, c in enumerate(cs) if c[3] == "f"]
+    vf = os.path.join(rep.outdir if hasattr(rep, "outdir") else os.path.join(VERIF, "out", "C16"), "hbody_cases.v")
+    os.makedirs(os.path.dirname(vf), exist_ok=True)
+    with open(vf, "w") as f:
+        f.write("From Coq Require Import List NArith.\nFrom NngV Require Import Codec.HttpIov.\nImport ListNotations.\n")
+        for i, (b, c, lens, m) in full:
+            f.write("Eval vm_compute in (http_read_full %s [%s]%%N %d [%s]%%nat).\n" % ("true" if fixed else "false", "; ".join(str(x) for x in b), c, "; ".join(map(str, lens))))
+    r = subprocess.run(["coqc", "-Q", os.path.join(VERIF, "coq"), "NngV", vf], capture_output=True, text=True, timeout=600, cwd=os.path.dirname(vf))
+    mouts = [re.sub(r"\s+", "", x) for x in r.stdout.split("     = ")[1:]]
+    model = {}
+    if r.returncode == 0 and len(mouts) == len(full):
+        for (i, _), t in zip(full, mouts):
+            mm = re.match(r"\((\[.*\]),(\d+)\):mem\*nat", t)
+            if mm:
+                bufs = [[int(v) for v in re.findall(r"\d+", x)] for x in re.findall(r"\[([^\[\]]*)\]", mm.group(1))]
+                model[i] = (bufs, int(mm.group(2)))
+    bad_model = []
+    nviol = 0
+    for i, ((b, c, lens, m), l) in enumerate(zip(cs, res)):
+        mm = re.match(r"hbody rv=(\S+) n=(\d+) iov=(\S*)$", l)
+        if not mm:
+            p = rep.replay_file("hbody_%d.case" % i, "# %s\n%s\n" % (l, lines[i]))
+            rep.violation(p, "HTTP multi-element read gave no result: %s" % l, nofail=True)
+            continue
+        rv, n, got = mm.group(1), int(mm.group(2)), [unhx(x) if x != "-" else b"" for x in mm.group(3).split(",")]
+        flat = b"".join(got)
+        want_n = len(b) if m == "f" else n
+        ok = rv == "0" and n == want_n and 0 < n <= len(b) and flat[:n] == b[:n] and all(x == 0xEE for x in flat[n:]) and [len(x) for x in got] == lens
+        if not ok and nviol < 6:
+            nviol += 1
+            p = rep.replay_file("hbody_%d.case" % i, "# %s\n# body %s, %d bytes buffered, elements %s, mode %s\n%s\n" % (l, hx(b), c, lens, m, lines[i]))
+            rep.violation(p, "HTTP read with %d io-vector elements %s, %d of %d body bytes already buffered: rv=%s count=%d, elements received %s -- "
+                             "expected consecutive bytes of the body %s" % (len(lens), lens, c, len(b), rv, n, ",".join(hx(x) for x in got)[:120], hx(b)[:80]))
+        elif ok and i in model:
+            mb, mn = model[i]
+            if [list(x) for x in got] != mb or mn != n:
+                bad_model.append(i)
+    if (r.returncode != 0 or len(model) != len(full) or bad_model) and not nviol:
+        i = bad_model[0] if bad_model else 0
+        p = rep.replay_file("hbody_model_%d.case" % i, "# coqc rc=%s; %d of %d model answers parsed; %d differ\n# %s\n%s\n" % (r.returncode, len(model), len(full), len(bad_model), (r.stderr or "")[-600:].replace("\n", " "), lines[i]))
+        rep.violation(p, "correspondence Codec/HttpIov.v <-> http_rd_buf broken (%d of %d cases differ or could not be evaluated)" % (len(bad_model), len(full)), nofail=True)
+    rep.cov["http_multi_element_reads"] = {"cases": len(cs), "model_compared": len(model), "model_variant": "repaired" if fixed else "pinned",
+                                           "elements_histogram": {str(k): sum(1 for x in cs if len(x[2]) == k) for k in sorted({len(x[2]) for x in cs})},
+                                           "buffered_on_element_boundary": sum(1 for b, c, lens, m in cs if c in [sum(lens[:j]) for j in range(len(lens) + 1)])}
+
+
 def run(tier, seed, replay=None):
     rep = Report("C16", tier, seed)
     if os.environ.get("NNGV_C16_ASSUME_KNOWN"):      # development aid: treat the findings of KNOWN_TEXT as recorded
@@ -723,6 +799,8 @@ def run(tier, seed, replay=None):
         outs = set(x[1] for x in v)
         if len(outs) > 1:
             viol("seg", v[0][0], "%s decoder: different results for different segmentations of the same bytes: %s" % (k[0], " // ".join(sorted(outs))[:300]))
+    if not replay or os.path.basename(replay).startswith("hbody_"):
+        http_body_iov(rep, impl, rng, tier, replay)
     if diverged and not rep.violations:
         idx, what = diverged[0]
         viol("diverge", idx, "correspondence %s <-> code broken on %d cases (spec oracle found no violation); first" % (what, len(diverged)), nofail=True)
